@@ -86,6 +86,7 @@ func knobs() gen.Knobs {
 	k.PNodePool = 0
 	k.PForeignPod = 0
 	k.PMinRuntime = 0
+	k.PDRA = 0.25 // DRA (gen/dra.go): claims handed over through BindRequest.Spec.ResourceClaimAllocations
 	return k
 }
 
